@@ -58,11 +58,20 @@ Definition lit_value (n : number) : f64 :=
   end.
 (* value of a written number: the three parenthesised forms for nan / infinities, otherwise the
    literal read back with correctly rounded decimal -> binary conversion *)
+(* a Lua numeral starts with a digit, or a dot followed by a digit (after an optional minus sign): words such as
+   inf / nan, which a float parser may accept, are names in Lua *)
+Definition numeral_shape (t : bytes) : bool :=
+  let u := match t with 45 :: r => r | _ => t end in
+  match u with
+  | c :: r => if is_digit c then true
+              else if N.eqb c 46 then match r with d :: _ => is_digit d | [] => false end else false
+  | [] => false
+  end.
 Definition text_value (t : bytes) : option f64 :=
   if bytes_eqb t (of_string "(0/0)") then Some S754_nan
   else if bytes_eqb t (of_string "(1/0)") then Some (S754_infinity false)
   else if bytes_eqb t (of_string "(-1/0)") then Some (S754_infinity true)
-  else option_map lit_value (from_str t).
+  else if numeral_shape t then option_map lit_value (from_str t) else None.
 Definition check_case (c : number * string) : bool :=
   match text_value (unhex (snd c)) with
   | Some v => same_f64 v (lit_value (fst c))
